@@ -562,3 +562,68 @@ Proof.
   split; [intros a b; rewrite HG; apply ip_pos|].
   intros a b c d. rewrite !HG. apply (eri_schwarz C rho).
 Qed.
+
+(* ------------------------------------------------------------------ *)
+(* 9. the partial derivatives of the linear combination: |grad (sum_a c_a chi_a)|^2 *)
+(* ------------------------------------------------------------------ *)
+Lemma ex_derive_cprim_x al Ax Ay Az c y z x : ex_derive (fun t => cprim al Ax Ay Az c t y z) x.
+Proof. unfold cprim. auto_derive. exact I. Qed.
+Lemma ex_derive_cprim_y al Ax Ay Az c x z y : ex_derive (fun t => cprim al Ax Ay Az c x t z) y.
+Proof. unfold cprim. auto_derive. exact I. Qed.
+Lemma ex_derive_cprim_z al Ax Ay Az c x y z : ex_derive (fun t => cprim al Ax Ay Az c x y t) z.
+Proof. unfold cprim. auto_derive. exact I. Qed.
+
+Lemma ex_derive_fsum n (c : nat -> R) (h : nat -> R -> R) x :
+  (forall i, ex_derive (h i) x) -> ex_derive (fun t => fsumR (Tables.mk n (fun i => c i * h i t))) x.
+Proof.
+  intro H. exists (fsumR (Tables.mk n (fun i => c i * Derive (h i) x))).
+  apply (is_derive_fsum n c h (fun i => Derive (h i) x) x). intro i. apply Derive_correct, H.
+Qed.
+
+Lemma ex_derive_chi (a : bidx) (x y z : R) :
+  ex_derive (fun t => chi a t y z) x /\ ex_derive (fun t => chi a x t z) y /\ ex_derive (fun t => chi a x y t) z.
+Proof.
+  unfold chi, cfun, gprim. split; [|split].
+  - apply (ex_derive_fsum _ (cw (bsh a) (bseg a) (bcomp a))
+             (fun k t => cprim (nth k (s_exps (bsh a)) 0) (s_x (bsh a)) (s_y (bsh a)) (s_z (bsh a)) (bcomp a) t y z)).
+    intro k. apply ex_derive_cprim_x.
+  - apply (ex_derive_fsum _ (cw (bsh a) (bseg a) (bcomp a))
+             (fun k t => cprim (nth k (s_exps (bsh a)) 0) (s_x (bsh a)) (s_y (bsh a)) (s_z (bsh a)) (bcomp a) x t z)).
+    intro k. apply ex_derive_cprim_y.
+  - apply (ex_derive_fsum _ (cw (bsh a) (bseg a) (bcomp a))
+             (fun k t => cprim (nth k (s_exps (bsh a)) 0) (s_x (bsh a)) (s_y (bsh a)) (s_z (bsh a)) (bcomp a) x y t)).
+    intro k. apply ex_derive_cprim_z.
+Qed.
+
+Lemma Derive_lc {I} (f : I -> R -> R) (l : list (R * I)) (x : R) :
+  (forall a, ex_derive (f a) x) ->
+  Derive (fun t => lc (fun a => f a t) l) x = lc (fun a => Derive (f a) x) l.
+Proof.
+  intro H. apply is_derive_unique. unfold lc. induction l as [|p l IH]; cbn [map rsum].
+  - apply (is_derive_const (0 : R)).
+  - apply (is_derive_plus (fun t => fst p * f (snd p) t) (fun t => rsum (map (fun p0 => fst p0 * f (snd p0) t) l))).
+    + apply (is_derive_scal (f (snd p)) x (fst p)). apply Derive_correct, H.
+    + exact IH.
+Qed.
+
+(* the three first partial derivatives of sum_p c_p chi_{a_p} are the combinations of the partial derivatives
+   (no validity hypothesis: every contracted function is differentiable) *)
+Theorem pd3_lcf (l : list (R * bidx)) (x y z : R) :
+  pd3 1 0 0 (lcf l) x y z = lcd 1 0 0 l x y z /\
+  pd3 0 1 0 (lcf l) x y z = lcd 0 1 0 l x y z /\
+  pd3 0 0 1 (lcf l) x y z = lcd 0 0 1 l x y z.
+Proof.
+  split; [|split].
+  - exact (Derive_lc (fun a t => chi a t y z) l x (fun a => proj1 (ex_derive_chi a x y z))).
+  - exact (Derive_lc (fun a t => chi a x t z) l y (fun a => proj1 (proj2 (ex_derive_chi a x y z)))).
+  - exact (Derive_lc (fun a t => chi a x y t) l z (fun a => proj2 (proj2 (ex_derive_chi a x y z)))).
+Qed.
+
+(* sum_a sum_b c_a c_b T_ab = iterated integral of 1/2 |grad (sum_a c_a chi_a)|^2 *)
+Theorem kinetic_quadratic_form_is_grad_integral (l : list (R * bidx)) :
+  (forall p, In p l -> bvalid (snd p)) ->
+  gint3 (fun x y z => 1 / 2 * gdot (lcf l) (lcf l) x y z) (qf Tkin l).
+Proof.
+  intro Hl. refine (gint3_ext _ _ _ _ _ eq_refl (kinetic_quadratic_form_is_integral l Hl)).
+  intros x y z. cbv beta. unfold gdot. destruct (pd3_lcf l x y z) as [-> [-> ->]]. reflexivity.
+Qed.
